@@ -38,6 +38,11 @@ def check(rep, tier, seed):
         for byte in (0, 171):
             for level in (1, 6, 9):
                 lines.append(f"rtc {level} {byte} {n} 8080808001")
+    # incompressible blocks whose COMPRESSED length crosses a width boundary of its var-int (2^14, 2^21): stored deflate
+    # blocks add 5 bytes per 65535, so the block sizes sweep a window below each boundary
+    for n in list(range(16360, 16392, 4)) + list(range(2096700, 2097200, 35 if tier == "quick" else 7)):
+        for level in (0, 1, 9):
+            lines.append(f"rtr {level} {rng.getrandbits(40)} {n} ff01")
     lines.append("huge 5")
     lines.append("huge 0")
     res = {}
@@ -52,11 +57,11 @@ def check(rep, tier, seed):
             why = None
             if a.startswith("panic"):
                 why = "panic"
-            elif l.startswith("rt ") or l.startswith("rtc "):
+            elif l.startswith("rt ") or l.startswith("rtc ") or l.startswith("rtr "):
                 kv = dict(x.split("=") for x in a.split()[1:])
                 n = int(kv["len"])
                 if kv["sinks"] != "true":
-                    why = "the three sinks disagree on the frame"
+                    why = "the sinks (Vec, BytesMut, size calculator, SerializationContext, a fresh thread) disagree on the frame"
                 elif kv["layout"] != "true":
                     why = "the frame does not record the true uncompressed / compressed lengths"
                 elif kv["decoded"] != "true":
